@@ -1229,3 +1229,50 @@ Proof.
   intros H. pose proof (H (fun _ => Some w_hd_payload) mulG_w modsqrt_real btc_cfg Bip32 [] _ w_hd_pub_gives_private) as R.
   discriminate.
 Qed.
+
+(* a SEC text whose x coordinate is >= p is refused *)
+Lemma sec_bad_x modsqrt net s b :
+  h2b s = Some b -> curve_p <= from_bytes (slice 1 33 b) -> sec modsqrt net s = Ret None.
+Proof.
+  intros Hb Hx. unfold sec. rewrite Hb. unfold key_from_sec, sec_to_public_pair.
+  apply Z.leb_le in Hx. rewrite Hx. reflexivity.
+Qed.
+
+(* keys returned by sec() have coordinates in [0, p) (given that the square root oracle returns residues) *)
+Lemma points_for_x_range modsqrt x pp :
+  (forall a, 0 <= modsqrt a < curve_p) -> points_for_x modsqrt x = Ret pp ->
+  0 <= snd (fst pp) < curve_p /\ 0 <= snd (snd pp) < curve_p.
+Proof.
+  intros Hs. unfold points_for_x, mk_point.
+  set (y0 := modsqrt (((x ^ 3) mod curve_p + curve_a * x + curve_b) mod curve_p)).
+  pose proof (Hs (((x ^ 3) mod curve_p + curve_a * x + curve_b) mod curve_p)) as R. fold y0 in R.
+  destruct (Z.eqb_spec y0 0) as [E|E]; [discriminate|].
+  destruct (on_curve (x, y0)); cbn [bind]; [|discriminate].
+  destruct (on_curve (x, curve_p - y0)); cbn [bind]; [|discriminate].
+  Local Transparent Z.sub.
+  destruct (Z.land y0 1 =? 0); intros [= <-]; cbn [fst snd]; lia.
+Qed.
+Local Opaque Z.sub.
+
+Lemma sec_in_range modsqrt net s pt c :
+  (forall a, 0 <= modsqrt a < curve_p) ->
+  sec modsqrt net s = Ret (Some (OKey (Pub pt) c)) -> 0 <= fst pt < curve_p /\ 0 <= snd pt < curve_p.
+Proof.
+  intros Hs. unfold sec. destruct (h2b s) as [b|]; [|discriminate]. intros H. apply catch_all_inv in H.
+  unfold key_from_sec in H. destruct (sec_to_public_pair modsqrt b) as [q| |] eqn:S; cbn [bind] in H; try discriminate.
+  destruct (key_material_public q) as [k| |] eqn:K; cbn [bind] in H; try discriminate.
+  apply key_material_public_inv in K; subst k. injection H as -> _.
+  unfold sec_to_public_pair in S.
+  destruct (Z.leb_spec curve_p (from_bytes (slice 1 33 b))) as [|X]; [discriminate|].
+  pose proof (from_bytes_range (slice 1 33 b)) as [X0 _].
+  destruct (Nat.eqb (length b) 65).
+  - destruct (bytes_eqb (take 1 b) [x04]); [|discriminate].
+    destruct (Z.leb_spec curve_p (from_bytes (slice 33 65 b))) as [|Y]; [discriminate|].
+    pose proof (from_bytes_range (slice 33 65 b)) as [Y0 _]. injection S as <-. cbn [fst snd]. auto.
+  - destruct (Nat.eqb (length b) 33); [|discriminate].
+    destruct (_ || _); [|discriminate].
+    destruct (points_for_x modsqrt (from_bytes (slice 1 33 b))) as [pp| |] eqn:P; cbn [bind] in S; try discriminate.
+    injection S as <-. pose proof (points_for_x_range _ _ _ Hs P) as [R0 R1].
+    apply points_for_x_shape in P as (X0' & X1' & _ & _).
+    unfold pick. destruct (negb _); [rewrite X1'|rewrite X0']; auto.
+Qed.
